@@ -494,3 +494,19 @@ _add('C16', 'Which circuits the encoder accepts is a theorem: exactly the well-f
 _add('C17', 'Denormalisation never raises on a matching entry and returns the requested table (c17_denormalize_returns).')
 _add('C19', 'Error range of replace_subcircuit (c19_replace_subcircuit_errors): on a well-formed circuit, when it does not return it raised a '
      'library error, never a Python-internal one, and no model fuel runs out.')
+_upd('C04',
+     'Theorems: (1) the splice loop, abstractly: ANY finite sequence of replace_subcircuit steps whose replacements agree with the cones '
+     'they replace leaves the circuit well formed with the same inputs, position by position, and the same output values on every assignment '
+     '(through the C19 theorem). (2) the cone pipeline that produces such replacements (Model/ConeTable.lean, compared with the code on every '
+     'cone of every run): the simulation loop of _get_subcircuits gives every leaf and cone gate the pattern whose bit at the row of the leaf '
+     'vector is the gate\'s value, for every valuation of the circuit; _eval_dont_cares collects the leaf vector of every valuation (through '
+     'C01\'s theorem on per-gate truth tables); evaluate_truth_table_with_dont_cares is defined exactly on the collected rows and carries the '
+     'output pattern\'s bit there; hence ANY circuit implementing that table — in particular what exact synthesis builds from any satisfying '
+     'assignment of its encoding (C06) — agrees with the cone on every valuation under the driver\'s identification of inputs and outputs, '
+     'i.e. meets the hypothesis of (1) (c04_dont_care_table_sound, c04_synthesised_cone_slice_agrees). The real minimize_subcircuits is run on '
+     'random circuits (all bases, parameter settings, admissible cut families incl. shuffled / sub-families, correlated cut leaves, n-ary '
+     'cones, twin cones that differ only in their care sets) and compared with its argument on all assignments; every splice and every cone it '
+     'builds is recorded in-process, checked against the theorems\' hypotheses and compared with the Lean model.',
+     'PARTIAL: cut selection (nested-cut removal), the in-place merge of cone outputs with equal patterns, the relabelling before the splice '
+     'and the driver loop over node states are not modelled (search oracle only); that the enumerator\'s cones are closed under their leaves is '
+     'a hypothesis audited on every cone. mockturtle and pysat are shims. No open finding.')
